@@ -235,7 +235,16 @@ impl Envelope {
     pub fn uncompress_subject(&self) -> Result<Self> {
         if self.subject().is_compressed() {
             let subject = self.subject().uncompress()?;
-            Ok(self.replace_subject(subject))
+            // Rebuild the node around the uncompressed subject. Re-adding the
+            // assertions to the subject (`replace_subject`) would merge them
+            // into the subject's own assertions when the subject is a node,
+            // which changes the digest.
+            match self.case() {
+                EnvelopeCase::Node { assertions, .. } => {
+                    Ok(Self::new_with_unchecked_assertions(subject, assertions.clone()))
+                }
+                _ => Ok(subject),
+            }
         } else {
             Ok(self.clone())
         }
